@@ -513,7 +513,7 @@ func NewEnv(base, name string, o Options) *Env {
 	opts := haproxy.InstanceOptions{
 		HAProxyCfgDir:  cfg,
 		HAProxyMapsDir: maps,
-		RootFSPrefix:   "/repo/rootfs",
+		RootFSPrefix:   cfgsmRepoRoot() + "/rootfs",
 		LocalFSPrefix:  "",
 		BackendShards:  o.Shards,
 		Metrics:        e.Metrics,
@@ -930,4 +930,13 @@ func (e *Env) Written() []string {
 	})
 	sort.Strings(out)
 	return out
+}
+
+// cfgsmRepoRoot is /repo, or the scratch copy named by VERIF_REPO when the checks are tried
+// against a copy of the repository.
+func cfgsmRepoRoot() string {
+	if r := os.Getenv("VERIF_REPO"); r != "" {
+		return r
+	}
+	return "/repo"
 }
